@@ -566,7 +566,8 @@ class C06(PropertyCheck):
         # the composition lemmas behind end_to_end_pulses_partial (Lemmas/Compose*.lean)
         "QipVerif.Compose.sliceProd_eq_windows", "QipVerif.Compose.channels_sliceProd",
         "QipVerif.SpinChain.pulses_product", "QipVerif.SpinChain.compile_chanQubits",
-        "QipVerif.SpinChain.compile_cast", "QipVerif.SpinChain.modelStarts_facts", "QipVerif.SpinChain.chain_chanJ", "QipVerif.SpinChain.pulses_product_sched"]
+        "QipVerif.SpinChain.compile_cast", "QipVerif.SpinChain.fullCoeffsVW_mixed", "QipVerif.Compose.channels_sliceProd_all",
+        "QipVerif.SpinChain.modelStarts_facts", "QipVerif.SpinChain.chain_chanJ", "QipVerif.SpinChain.pulses_product_sched"]
     technique = ("Lean 4: the compiler's formulas and tables regenerated from the source with ast into functions over an abstract "
                  "arithmetic, instantiated with R for the theorems and with Q for the compiled model driver; calibration "
                  "identities over C for every angle and strength, with the ideal propagator of a constant segment defined as "
@@ -613,7 +614,9 @@ class C06(PropertyCheck):
                   "and compile_cast proves that its instruction list cast to R is the list of the real-valued model, for every angle "
                   "that is a rational multiple of pi (fixed parts multiples of pi/8, symbols valued at r_j*pi with r_j rational) and "
                   "rational non-zero strengths; irrational strengths / other angles are outside; transpiled circuits with an IDLE gate "
-                  "are excluded (its argument is a time, not an angle). Partial: "
+                  "are excluded (its argument is a time, not an angle). Both theorems also state the result for the channel list of the "
+                  "whole processor: every control label in the list, controls without pulse as Chan.absent (row of zeros, "
+                  "fullCoeffsVW_mixed / channels_sliceProd_all), same merged grid, same unitary. Partial: "
                   "that composition is about exact rational arithmetic (durations, coefficients and start times as rationals, no "
                   "float rounding) and takes the facts about the schedule as hypotheses: every idle gap on a channel is 0 or above "
                   "time_tol (C12 ValidG), instructions whose gates share a qubit are disjoint in time (GateDisjoint; compile_chanQubits "
@@ -654,7 +657,8 @@ class C06(PropertyCheck):
                    "end_to_end_pulses_partial: durations, coefficients and start times are rational numbers and the arithmetic is exact "
                    "(no float rounding); idle gaps on a channel are 0 or above time_tol (C12 ValidG); instructions whose gates "
                    "share a qubit do not overlap in time (C11 timetable_valid); distinct merged grid points are more than tol "
-                   "apart (C14 SepAll); control channels without pulse (rows of zeros) are left out of the model's channel list",
+                   "apart (C14 SepAll); end_to_end_pulses_partial itself states the used channels only, the scheduled/model theorems also "
+                   "the full control list with absent channels",
                    "classes excluded from the oracle sweep exactly when the source has the defective shape: circuits with a gate on "
                    "more than two qubits (transpile without pre-decomposition), circuits with a rotation by exactly 0 (compile keeps "
                    "zero-duration instructions), circuits that need no pulse (load_circuit cannot store an empty pulse set)",
